@@ -376,13 +376,22 @@ func (st *sites) sel(ss *nast.SelectionSet, parent string, depth int, inOp *nast
 // fresh returns a name with the given prefix that does not occur as a
 // fragment name in the document.
 func (st *sites) freshFragName(prefix string) string {
-	used := map[string]bool{}
-	for _, f := range st.frags {
-		used[f.Name.Value] = true
+	// fragments appended to the document by an earlier operator count too
+	var names []string
+	for _, d := range st.doc.Defs {
+		if f, ok := d.(*nast.Fragment); ok {
+			names = append(names, f.Name.Value)
+		}
 	}
 	for i := 0; ; i++ {
 		n := prefix + itoa(i)
-		if !used[n] {
+		free := true
+		for _, u := range names {
+			if u == n || (len(u) > len(n) && u[:len(n)+1] == n+"_") {
+				free = false
+			}
+		}
+		if free {
 			return n
 		}
 	}
